@@ -409,7 +409,8 @@ def cases(tier):
                                                "sum_by_group", "thermal")]
     hs = scopes.h_cases(3, 3, 1, with_config=False) if tier == "quick" else scopes.h_cases(4, 4, 1, with_config=False)
     for c in hs:
-        for fm in (("nikuradse",) if tier == "quick" else scopes.FRICTION):
+        # quick: the other friction models on the two-junction networks only
+        for fm in (("nikuradse",) if (tier == "quick" and c["n"] > 2) else scopes.FRICTION):
             out.append({"part": "b", "case": c, "friction": fm})
     for topo in c10.TOPOS:
         for fluid in ("water", "lgas"):   # the deviation bound applies per fluid (gas + reversed pipe is a pair otherwise)
